@@ -177,48 +177,68 @@ def writePieces (m : Memory) (region tid : Nat) (ps : List Piece) (shift : Int :
 /-- tensor id 0 = constant data; its "delta" is (constants-region address) − (address of the copy) -/
 def constTid : Nat := 0
 
+/-- one checked read of an operation: the bytes of `pieces` in `region` must all carry
+    `(tid, piece.delta + shift)` -/
+structure Read where
+  what : String
+  region : Nat
+  tid : Nat
+  pieces : List Piece
+  shift : Int
+deriving Repr, Inhabited
+
+/-- feature-map read (data living in the constants region is never written by the stream and is not tracked) -/
+def fmRead (e : Env) (what : String) (fm : FM) (fi : FmInfo) : List Read :=
+  if fm.region = e.constRegion then [] else [⟨what, fm.region, fi.tid, fmPieces fm fi.y0 fi.x0 fi.c0, fi.shift⟩]
+
+/-- weight / scale ranges: each must hold the copy of the constants-region bytes at `src` -/
+def constReads (e : Env) (what : String) (rs : List AddrRange) (srcs : List Int) : List Read :=
+  (rs.zip srcs).flatMap fun (r, src) =>
+    if r.region = e.constRegion then [] else [⟨what, r.region, constTid, [⟨r.addr, r.len, src - r.addr⟩], 0⟩]
+
+def lutRead (e : Env) (b : BlockOp) (i : OpInfo) : List Read :=
+  match lutIndex b.activation with
+  | some li =>
+    let a := e.lutBase + li * 256
+    [⟨"LUT", REGION_SHRAM, constTid, [⟨a, i.lutLen, i.lutsrc - a⟩], 0⟩]
+  | none => []
+
+/-- everything a block operation reads, in reporting order -/
+def blockReads (e : Env) (b : BlockOp) (i : OpInfo) : List Read :=
+  fmRead e "IFM" b.ifm i.ifm ++ (match b.ifm2 with | some f => fmRead e "IFM2" f i.ifm2 | none => []) ++
+    constReads e "WEIGHTS" b.weights i.wsrc ++ constReads e "SCALES" b.scales i.ssrc ++ lutRead e b i
+
+def dmaReads (e : Env) (d : DmaOp) (i : DmaInfo) : List Read :=
+  if d.src.region = e.constRegion then [] else [⟨"DMA-SRC", d.src.region, i.srcTid, [⟨d.src.addr, d.src.len, i.srcDelta⟩], 0⟩]
+
+def readErr (m : Memory) (idx : Nat) (r : Read) : List String :=
+  match readPieces m r.region r.tid r.pieces r.shift with
+  | some msg => [s!"op {idx} {r.what}: {msg}"]
+  | none => []
+
 def stepBlock (e : Env) (m : Memory) (idx : Nat) (b : BlockOp) (i : OpInfo) : List String × Memory :=
-  let rd (what : String) (fm : FM) (fi : FmInfo) : List String :=
-    if fm.region = e.constRegion then [] else
-    match readPieces m fm.region fi.tid (fmPieces fm fi.y0 fi.x0 fi.c0) fi.shift with
-    | some msg => [s!"op {idx} {what}: {msg}"]
-    | none => []
-  let rdConst (what : String) (rs : List AddrRange) (srcs : List Int) : List String :=
-    (rs.zip srcs).flatMap fun (r, src) =>
-      if r.region = e.constRegion then [] else
-      match readPieces m r.region constTid [⟨r.addr, r.len, src - r.addr⟩] with
-      | some msg => [s!"op {idx} {what}: {msg}"]
-      | none => []
-  let errs := rd "IFM" b.ifm i.ifm ++ (match b.ifm2 with | some f => rd "IFM2" f i.ifm2 | none => []) ++
-    rdConst "WEIGHTS" b.weights i.wsrc ++ rdConst "SCALES" b.scales i.ssrc ++
-    (match lutIndex b.activation with
-     | some li =>
-       let a := e.lutBase + li * 256
-       match readPieces m REGION_SHRAM constTid [⟨a, i.lutLen, i.lutsrc - a⟩] with
-       | some msg => [s!"op {idx} LUT: {msg}"]
-       | none => []
-     | none => [])
-  (errs, writePieces m b.ofm.region i.ofm.tid (fmPieces b.ofm i.ofm.y0 i.ofm.x0 i.ofm.c0) i.ofm.shift)
+  ((blockReads e b i).flatMap (readErr m idx),
+   writePieces m b.ofm.region i.ofm.tid (fmPieces b.ofm i.ofm.y0 i.ofm.x0 i.ofm.c0) i.ofm.shift)
 
 def stepDma (e : Env) (m : Memory) (idx : Nat) (d : DmaOp) (i : DmaInfo) : List String × Memory :=
-  let errs :=
-    if d.src.region = e.constRegion then [] else
-    match readPieces m d.src.region i.srcTid [⟨d.src.addr, d.src.len, i.srcDelta⟩] with
-    | some msg => [s!"op {idx} DMA-SRC: {msg}"]
-    | none => []
-  (errs, writePieces m d.dst.region i.dstTid [⟨d.dst.addr, d.dst.len, i.dstDelta⟩])
+  ((dmaReads e d i).flatMap (readErr m idx),
+   writePieces m d.dst.region i.dstTid [⟨d.dst.addr, d.dst.len, i.dstDelta⟩])
+
+/-- one step of the tagged-memory machine: the errors of its reads (against the memory *before* the
+    step) and the memory after its write -/
+def step (e : Env) (m : Memory) (idx : Nat) : DecOp → Info → List String × Memory
+  | .block b, .block i => stepBlock e m idx b i
+  | .dma d, .dma i => stepDma e m idx d i
+  | _, _ => ([s!"op {idx}: side information does not match the decoded operation kind"], m)
+
+def execGo (e : Env) (l : List ((DecOp × Info) × Nat)) (m : Memory) (acc : List String) : List String :=
+  match l with
+  | [] => acc
+  | ((op, info), idx) :: rest =>
+    let r := step e m idx op info
+    execGo e rest r.2 (acc ++ r.1)
 
 def execTagged (e : Env) (init : Memory) (ops : List DecOp) (infos : List Info) : List String :=
-  let rec go (l : List ((DecOp × Info) × Nat)) (m : Memory) (acc : List String) : List String :=
-    match l with
-    | [] => acc
-    | ((.block b, .block i), idx) :: rest =>
-      let (errs, m') := stepBlock e m idx b i
-      go rest m' (acc ++ errs)
-    | ((.dma d, .dma i), idx) :: rest =>
-      let (errs, m') := stepDma e m idx d i
-      go rest m' (acc ++ errs)
-    | (_, idx) :: rest => go rest m (acc ++ [s!"op {idx}: side information does not match the decoded operation kind"])
-  go (ops.zip infos).zipIdx init []
+  execGo e (ops.zip infos).zipIdx init []
 
 end VelaVerif.Mem
